@@ -33,6 +33,10 @@ def run(c, p):
         return decode(rla[arr(c["mask"], "bool")])
     if ix == "rlmask":
         return decode(rla[RunLengthArray.from_array(arr(c["mask"], "bool"))])
+    if ix == "rlmask_ufunc":
+        # a run-length mask produced by a comparison keeps the *data's* run boundaries: adjacent runs may carry the same truth value
+        m = RunLengthArray.from_array(typed(c["mvals"], "int64")) > 0
+        return decode(rla[m])
     if ix == "slice":
         return decode(rla[slice(pyint(c["a"]), pyint(c["b"]), c["s"])])
     if ix == "windows":
@@ -55,6 +59,10 @@ def sym(E, p, kf):
     elif ix in ("list", "array"):
         m = E.concretize(E.int("m", 1, p["m"]))
         c["idx"] = [E.int(f"i{j}", -n, n - 1) for j in range(m)]
+    elif ix == "rlmask_ufunc":
+        c["mvals"] = [E.bv(f"w{i}", 64) for i in range(n)]
+        c["mask"] = [w > 0 for w in c["mvals"]]
+        E.assume(z3.Or(*c["mask"]))
     elif ix in ("mask", "rlmask"):
         c["mask"] = [E.bool(f"m{i}") for i in range(n)]
         if ix == "rlmask":
@@ -109,7 +117,7 @@ def _sym2(E, p, c, got, n, vals, V):
         res = got["items"][1]
         exp = [z3.Select(V, z3.If(i < 0, i + n, i)) for i in c["idx"]]
         conds.append(specs.obs_goal(res, dict(k="array", flat=exp, shape=[len(exp)], dtype="int64")))
-    elif ix in ("mask", "rlmask"):
+    elif ix in ("mask", "rlmask", "rlmask_ufunc"):
         res = got["items"][1]
         if res["k"] != "array" or len(res["shape"]) != 1:
             return dict(goal=False, got=got, case=case)
@@ -155,6 +163,8 @@ def kf_match(case):
 def conc(case):
     p, c = case["p"], dict(case["c"])
     c["vals"] = c14.signed_vals(c["vals"], "int64")
+    if "mvals" in c:
+        c["mvals"] = c14.signed_vals(c["mvals"], "int64")
     vals, ix = c["vals"], p["ix"]
     n = len(vals)
     got = outcome(lambda: run(c, p))
@@ -168,6 +178,9 @@ def conc(case):
         exp = common.ref_scalar(vals[i], "int64")
     elif ix in ("list", "array"):
         exp = A([vals[i] for i in c["idx"]], [len(c["idx"])], "int64")
+    elif ix == "rlmask_ufunc":
+        sel = [v for v, m in zip(vals, c["mvals"]) if m > 0]
+        exp = A(sel, [len(sel)], "int64")
     elif ix in ("mask", "rlmask"):
         sel = [v for v, m in zip(vals, c["mask"]) if m]
         exp = A(sel, [len(sel)], "int64")
@@ -186,7 +199,7 @@ def conc(case):
 def jobs(tier, seed):
     q = tier == "quick"
     n = 4 if q else 5
-    out = [dict(ix="int", n=n), dict(ix="list", n=n, m=2 if q else 3), dict(ix="array", n=n, m=2), dict(ix="mask", n=n), dict(ix="rlmask", n=n),
+    out = [dict(ix="int", n=n), dict(ix="list", n=n, m=2 if q else 3), dict(ix="array", n=n, m=2), dict(ix="mask", n=n), dict(ix="rlmask", n=n), dict(ix="rlmask_ufunc", n=n),
            dict(ix="windows", n=3 if q else 4, k=2), dict(ix="ellipsis", n=n)]
     for s in (1, 2, 3, -1, -2, -3) if not q else (1, 2, -1, -2, 3):
         out.append(dict(ix="slice", n=n, s=s))
